@@ -39,7 +39,7 @@ DEFAULT_PROFILE = dict(
     shifts=(0.0, 0.0, 30.0, 150.0, -30.0, 180.0), tap_types=(None, "Ratio", "Symmetrical", "Ideal"),
     custom_index=True, sn_choices=(1.0, 1.0, 10.0, 100.0, 0.5, 1000.0),
     scaling=True, gen_qlims=True, line_g=True, line_parallel=True, df=True, leakage=True,
-    tap2=False, trafo_oltc_cols=False,
+    tap2=False, trafo_oltc_cols=False, gen_qlim_range=(0.02, 0.4),
 )
 
 
@@ -190,7 +190,8 @@ def bus_element(draw, kind, vn, p, shift_deg=0.0):
     elif kind == "gen":
         d.update(p_mw=pw(0, 0.5), vm_pu=draw(q(0.97, 1.04, nd=3)))
         if p["gen_qlims"] and draw(st.integers(0, 1)):
-            d.update(min_q_mvar=-pw(0.02, 0.4), max_q_mvar=pw(0.02, 0.4))
+            lo, hi = p.get("gen_qlim_range", (0.02, 0.4))
+            d.update(min_q_mvar=-pw(lo, hi), max_q_mvar=pw(lo, hi))
     elif kind == "shunt":
         d.update(q_mvar=pw(-0.3, 0.3), p_mw=pw(0, 0.05) if draw(st.integers(0, 1)) else 0.0)
         if draw(st.integers(0, 2)) == 0:
